@@ -44,6 +44,13 @@ def gen_triangle(g: Gen, rng: random.Random, k: int):
         cells = rng.sample(cells, 24) if basis != "inc" else cells[:24]
     b = jc.bermuda()
     extra = []
+    if cells and k % 5 in (1, 3):      # nested / overlapping periods inside one slice
+        extra += nested_rows(rng, cells, layout == "daily")
+        info["nested"] = True
+    if cells and k % 2 == 0:           # cells evaluated BEFORE their period end (negative development lag)
+        early = early_cells(rng, cells + extra, layout == "daily")
+        extra += early
+        info["early"] = len(early)
     if k % 4 == 1 and cells:       # duplicate coordinates (same slice, period, evaluation date)
         for c in rng.sample(cells, min(2, len(cells))):
             vals = {f: (v + 1 if isinstance(v, (int, float)) else v) for f, v in c.values.items()}
@@ -59,6 +66,65 @@ def gen_triangle(g: Gen, rng: random.Random, k: int):
     info["n_cells"] = len(t)
     del b
     return t, info
+
+
+def cell_like(c, ps, pe, ev, bump=0):
+    """a cell of c's class / metadata / fields at other coordinates (None if the dates are not valid)"""
+    b = jc.bermuda()
+    if pe < ps or ev < ps:
+        return None
+    vals = {f: (v + bump if isinstance(v, (int, float)) else v) for f, v in c.values.items()}
+    kw = dict(period_start=ps, period_end=pe, evaluation_date=ev, values=vals, metadata=c.metadata)
+    if type(c).__name__ == "IncrementalCell":
+        return b.IncrementalCell(prev_evaluation_date=ps - ONE, **kw)
+    return type(c)(**kw)
+
+
+def month_start(d, k=0):
+    i = jc.month_id(d) + k
+    return D(i // 12, i % 12 + 1, 1)
+
+
+def nested_rows(rng, cells, daily):
+    """rows whose period BEGINS on the same date as an existing period but ends later (annual around a
+    quarter), and rows that END on the same date but begin earlier -- same slice (same metadata)"""
+    out = []
+    base = rng.choice(cells)
+    ps, pe = base.period_start, base.period_end
+    if daily:
+        pe2, ps3 = pe + datetime.timedelta(days=5), ps - datetime.timedelta(days=3)
+        evs2 = [pe2 - datetime.timedelta(days=2), pe2, pe2 + datetime.timedelta(days=7)]
+        evs3 = [pe, pe + datetime.timedelta(days=7)]
+    else:
+        pe2 = jc.add_months_end(pe, rng.choice([3, 6, 9]))
+        ps3 = month_start(ps, -rng.choice([1, 3]))
+        evs2 = [jc.add_months_end(pe2, -2), pe2, jc.add_months_end(pe2, rng.choice([3, 12]))]
+        evs3 = [pe, jc.add_months_end(pe, 3)]
+    for ev in evs2[: rng.randint(1, 3)]:
+        out.append(cell_like(base, ps, pe2, ev, 7))
+    for ev in evs3[: rng.randint(1, 2)]:
+        out.append(cell_like(base, ps3, pe, ev, 11))
+    return [c for c in out if c is not None]
+
+
+def early_cells(rng, cells, daily):
+    """evaluation_date before period_end (valid: only evaluation_date >= period_start is required)"""
+    out = []
+    seen = set()
+    for c in rng.sample(cells, min(3, len(cells))):
+        if (id(c.metadata), c.period) in seen:
+            continue
+        seen.add((id(c.metadata), c.period))
+        ps, pe = c.period_start, c.period_end
+        if daily:
+            cand = [ps, pe - ONE] if pe > ps else []
+        else:
+            cand = [d for d in (jc.add_months_end(ps, 0), jc.add_months_end(pe, -1)) if ps <= d < pe]
+        for ev in dict.fromkeys(cand):
+            x = cell_like(c, ps, pe, ev, 3)
+            if x is not None:
+                out.append(x)
+    return out[:4]
 
 
 def shift_month(d, k):
@@ -109,6 +175,16 @@ def ops_for(t, rng, quick=True):
         cand = sorted({x + e for x in dlags for e in (-1, 0, 1)} | {-5000, 0, 50000})
         for x in pick_some(rng, cand, nb, always=dlags[:1] + dlags[-1:] + [0]):
             ops.append({"kind": "clip", "kw": {key: x, "dev_lag_unit": rng.choice(["day", "days", "Day"])}})
+    # the literal bound zero, every unit and spelling (0 is falsy: `if min_dev:` would skip it)
+    for key in ("min_dev", "max_dev"):
+        ops.append({"kind": "clip", "kw": {key: 0, "dev_lag_unit": "day"}})
+        ops.append({"kind": "clip", "kw": {key: {"td": 0}, "dev_lag_unit": "timedelta"}})
+        for x in pick_some(rng, [x + e for x in dlags for e in (-1, 0, 1)], 2):
+            ops.append({"kind": "clip", "kw": {key: {"td": x}, "dev_lag_unit": "timedelta"}})
+        if aligned:
+            ops.append({"kind": "clip", "kw": {key: 0}})
+            ops.append({"kind": "clip", "kw": {key: 0.0, "dev_lag_unit": "month"}})
+    ops.append({"kind": "clip", "kw": {"min_dev": 0, "max_dev": 0, "dev_lag_unit": "day"}})
     if aligned:
         mlags = sorted({jc.month_id(c.evaluation_date) - jc.month_id(c.period_end) for c in cells})
         for key in ("min_dev", "max_dev"):
@@ -145,10 +221,10 @@ def ops_for(t, rng, quick=True):
     # ---- complementary clips
     for d in pick_some(rng, neighbours(evs), 4, always=evs[:1] + evs[-1:]):
         ops.append({"kind": "clip_pair", "attr": "eval", "d": iso(d)})
-    for x in pick_some(rng, dlags, 2, always=dlags[:1]):
+    for x in pick_some(rng, dlags + [-1, 0], 4, always=[-1, 0] + dlags[:1]):   # -1: max_dev=-1 / min_dev=0
         ops.append({"kind": "clip_pair", "attr": "dev", "k": x, "unit": "day"})
     if aligned:
-        for x in pick_some(rng, mlags, 2, always=mlags[-1:]):
+        for x in pick_some(rng, mlags + [-1, 0], 4, always=[-1, 0] + mlags[-1:]):
             ops.append({"kind": "clip_pair", "attr": "dev", "k": x, "unit": "month"})
     # ---- filter and complementary filters
     fields = sorted({k for c in cells for k in c.values})
@@ -250,7 +326,27 @@ def d_(s):
 
 
 def clip_kw(kw):
-    return {k: (d_(v) if k in ("min_eval", "max_eval", "min_period", "max_period") else v) for k, v in kw.items()}
+    """JSON form -> real keyword arguments ({"td": n} is datetime.timedelta(days=n))"""
+    out = {}
+    for k, v in kw.items():
+        if k in ("min_eval", "max_eval", "min_period", "max_period"):
+            v = d_(v)
+        elif isinstance(v, dict) and "td" in v:
+            v = datetime.timedelta(days=v["td"])
+        out[k] = v
+    return out
+
+
+def clip_kw_model(kw):
+    """arguments for the Coq model: a timedelta bound of n days in unit 'timedelta' is the bound n in
+    unit 'day' (evaluation_date - period_end compared as timedelta = compared as a number of days)"""
+    out = clip_kw(kw)
+    if out.get("dev_lag_unit") == "timedelta":
+        out["dev_lag_unit"] = "day"
+        for k in ("min_dev", "max_dev"):
+            if isinstance(out.get(k), datetime.timedelta):
+                out[k] = out[k].days
+    return out
 
 
 def py_pred(p):
@@ -384,6 +480,8 @@ def want_clip(t, kw):
     unit = kw.get("dev_lag_unit", "month").lower()
 
     def lag(c):
+        if unit == "timedelta":
+            return c.evaluation_date - c.period_end
         return (c.evaluation_date - c.period_end).days if "day" in unit else month_lag(c)
 
     out = []
@@ -584,7 +682,7 @@ def coq_cases(t, tname, op, res):
         return [("false", "impl-raised")]
     oc = lambda r: jc.out_cells_term(r.cells, cells, tname)     # noqa: E731
     if k == "clip":
-        a = jc.clip_args(clip_kw(op["kw"]))
+        a = jc.clip_args(clip_kw_model(op["kw"]))
         out.append((f"list_eqb cell_seqb (clip gen_clip {a} {tname}) {oc(res)}", "model"))
         out.append((f"clip_spec_b {a} {tname} {oc(res)}", "spec"))
     elif k == "clip_pair":
@@ -679,7 +777,9 @@ def prepare(ctx):
 def run(ctx):
     ctx.rule = (
         "triangles from harness/gen.py (7 layouts x cumulative/incremental x 1-3 slices x int/float/array values, "
-        "plus duplicate coordinates and equal-but-differently-written metadata), <= 26 cells; per triangle: clip "
+        "plus duplicate coordinates, equal-but-differently-written metadata, nested/overlapping periods inside a slice "
+        "(same start other end, same end other start) and cells evaluated before their period end (negative lags)), "
+        "<= ~35 cells; per triangle: clip with the literal bound 0 / 0.0 / timedelta(0) and "
         "with every bound kind at the triangle's own dates/lags, +-1 day, +-1 month, out of range, day and month "
         "units, float bounds, conjunctions; complementary clips and filters; slices; split by every subset of the "
         "detail keys; all index forms (int incl. negative/out of range, ranges with steps, (period, evaluation, "
@@ -689,7 +789,7 @@ def run(ctx):
         "translate/t_pred.py reads the Python AST faithfully (which attribute / operator / bound / guard)",
         "cell order is the input order: every operation here selects from an already sorted list (C01 owns sorting)",
         "month-unit development lags are modelled on month-aligned cells only (integer lags, C12); "
-        "timedelta-unit bounds are not modelled",
+        "a timedelta-unit bound of n days is modelled as the day-unit bound n",
         "TriangleSlice.__getitem__ is not modelled (Triangle.__getitem__ is)",
     ]
     translated = prepare(ctx)
@@ -726,7 +826,8 @@ def correspond(ctx):
             continue
         tname = f"t{k}"
         cases.add_def(tname, lit, len(t))
-        ctx.hist("tri:" + describe(info) + ("/dups" if info.get("dups") else "") + ("/alias" if info.get("alias") else ""))
+        ctx.hist("tri:" + describe(info) + ("/dups" if info.get("dups") else "") + ("/alias" if info.get("alias") else "")
+                 + ("/nested-periods" if info.get("nested") else "") + ("/negative-lags" if info.get("early") else ""))
         tj = None
         for op in ops_for(t, rng, ctx.quick):
             n_ops += 1
